@@ -319,6 +319,7 @@ type Replay struct {
 	Instrumented   bool    `json:"instrumented_build,omitempty"`
 	Prelude        []int64 `json:"prelude_runs,omitempty"`
 	PreludePrePass bool    `json:"prelude_prepass,omitempty"`
+	PreludeConfig  string  `json:"prelude_config,omitempty"` // set when the pass forced one configuration on every run
 }
 
 func runReplay(r *Replay, verbose bool) (c *core.Ctx, herr string) {
@@ -335,7 +336,11 @@ func runReplay(r *Replay, verbose bool) (c *core.Ctx, herr string) {
 		}()
 	}
 	for _, idx := range r.Prelude {
-		if _, h := checks.Execute(chk, chk.ConfigOf(idx), r.Tier, core.NewGenTape(core.RunSeed(r.VerifSeed, chk.ID, uint64(idx)), false), core.NewStats(), false); h != "" {
+		pcfg := chk.ConfigOf(idx)
+		if r.PreludeConfig != "" {
+			pcfg = r.PreludeConfig
+		}
+		if _, h := checks.Execute(chk, pcfg, r.Tier, core.NewGenTape(core.RunSeed(r.VerifSeed, chk.ID, uint64(idx)), false), core.NewStats(), false); h != "" {
 			return nil, "prelude run " + strconv.FormatInt(idx, 10) + ": " + h
 		}
 	}
@@ -814,7 +819,7 @@ func minimiseWithHistory(self string, chk *checks.Check, f *Found, tier string, 
 	}
 	rp := &Replay{Property: chk.ID, Config: f.Config, Tier: tier, VerifSeed: seed, RunIndex: f.Run, RunSeed: f.RunSeed,
 		Oracle: f.Violation.Oracle, Signature: sig, Message: f.Violation.Message,
-		Prelude: all, PreludePrePass: prepassRan && f.Run%stride == 0 && chk.PrePass != nil}
+		Prelude: all, PreludePrePass: prepassRan && f.Run%stride == 0 && chk.PrePass != nil, PreludeConfig: forcedConfig}
 	tests := 0
 	try := func(pre []int64, pp bool) bool {
 		tests++
